@@ -451,6 +451,7 @@ func (f *Frame) callFunction(st *State, in ssa.Instruction, fn *ssa.Function, bi
 		if fn.Signature.Recv() != nil && isPointer(fn.Signature.Recv().Type()) && len(args) > 0 && vc.p.inModule(fn) {
 			vc.oblige(st, "nil", vc.anchorOf(in), Not(Eq(args[0].T, IntLit(0))), nil, "nil receiver for "+shortFuncName(fn), in.Pos())
 		}
+		f.pendingBindings = bindings
 		return f.applyContract(st, in, ct, fn.Signature, nil, args, shortFuncName(fn), fn)
 	}
 	if vc.p.inModule(fn) && len(fn.Blocks) > 0 && !hasLoop(fn) && !f.inStack(fn) && f.depth < maxInlineDepth {
@@ -529,6 +530,16 @@ func (f *Frame) applyContract(st *State, in ssa.Instruction, ct *Contract, sig *
 			sc.vars[n] = scopeVar{args[i].T, typs[i]}
 		}
 	}
+	// a closure's contract speaks about its captured variables by name: their content when the closure is called
+	if fn != nil && len(fn.FreeVars) > 0 && len(f.pendingBindings) == len(fn.FreeVars) {
+		for i, fv := range fn.FreeVars {
+			elem := fv.Type().Underlying().(*types.Pointer).Elem()
+			if _, taken := sc.vars[fv.Name()]; !taken {
+				sc.vars[fv.Name()] = scopeVar{f.load(pre, f.pendingBindings[i], elem), elem}
+			}
+		}
+	}
+	f.pendingBindings = nil
 	anchor := "exit"
 	if in != nil {
 		anchor = vc.anchorOf(in)
